@@ -544,6 +544,7 @@ def setitem(ex, a, idx, v):
         v = from_seq(ex, v)
     if isinstance(v, np.ndarray):
         v = lift(v)
+    v_array = isinstance(v, Arr) and v.ndim > 0
     if isinstance(v, Arr) and v.ndim == 0:
         v = v.at()
 
@@ -553,6 +554,10 @@ def setitem(ex, a, idx, v):
             if a.kind == 'bool':
                 return tobool(x)
             if k == 'complex':
+                if v_array:
+                    # numpy stores the real part of a complex *array* into a real buffer and only warns (ComplexWarning)
+                    ex.event('warn', 'ComplexWarning: imaginary part discarded in array store', ex.where())
+                    return s_cast(s_real(x), a.kind)
                 raise SymRaise('TypeError', "can't convert complex to float")
             return s_cast(x, a.kind)
         return s_cast(x, a.kind) if a.kind in ('float', 'complex') and k != a.kind else (tobool(x) if a.kind == 'bool' and k != 'bool' else x)
